@@ -227,6 +227,7 @@ vector<string> ParameterList::getMatchingParameterNames(const string& pattern) c
     StringTokenizer stj(pattern, "*", true, false);
     size_t pos1, pos2;
     bool flag(true);
+    bool star(false); // a '*' was met: the last token may match further right
     string g = stj.nextToken();
     pos1 = name.find(g);
     if (pos1 != 0)
@@ -234,6 +235,7 @@ vector<string> ParameterList::getMatchingParameterNames(const string& pattern) c
     pos1 += g.length();
     while (flag && stj.hasMoreToken())
     {
+      star = true;
       g = stj.nextToken();
       pos2 = name.find(g, pos1);
       if (pos2 == string::npos)
@@ -244,7 +246,7 @@ vector<string> ParameterList::getMatchingParameterNames(const string& pattern) c
       pos1 = pos2 + g.length();
     }
     if (flag &&
-        ((g.length() == 0) || (pos1 == name.length()) || (name.rfind(g) == name.length() - g.length())))
+        ((pos1 == name.length()) || (star && ((g.length() == 0) || (name.rfind(g) == name.length() - g.length())))))
       pNames.push_back(name);
   }
 
